@@ -26,27 +26,27 @@ Print Assumptions C13_secret_at_any_position.
 (* NewHandleWithNoSecrets / ReadWithNoSecrets: error whenever some key carries
    symmetric, private, unknown or unrecognised material ... *)
 Theorem C13_no_secrets_apis_fail_on_secret_material :
-  forall ec_point_ok ec_pub_of_priv ks,
+  forall (L : stdlib) ks,
     Exists (fun k => ~ public_or_remote (key_material k)) (ks_keys ks) ->
-    handle_no_secrets ec_point_ok ec_pub_of_priv (Some ks) = Err
-    /\ forall b, decode_keyset b = Some ks -> read_no_secrets ec_point_ok ec_pub_of_priv b = Err.
+    handle_no_secrets L (Some ks) = Err
+    /\ forall b, decode_keyset b = Some ks -> read_no_secrets L b = Err.
 Proof. exact no_secrets_api_fails_on_secret. Qed.
 Print Assumptions C13_no_secrets_apis_fail_on_secret_material.
 
 (* ... and on public/remote-only keysets they are the cleartext construction
    (they succeed exactly when the keyset is otherwise acceptable, C14). *)
 Theorem C13_no_secrets_apis_succeed_on_public_keysets :
-  forall ec_point_ok ec_pub_of_priv ks,
+  forall (L : stdlib) ks,
     Forall (fun k => public_or_remote (key_material k)) (ks_keys ks) ->
-    handle_no_secrets ec_point_ok ec_pub_of_priv (Some ks) = handle_from_proto ec_point_ok ec_pub_of_priv (Some ks)
+    handle_no_secrets L (Some ks) = handle_from_proto L (Some ks)
     /\ forall b, decode_keyset b = Some ks ->
-         read_no_secrets ec_point_ok ec_pub_of_priv b = read ec_point_ok ec_pub_of_priv b.
+         read_no_secrets L b = read L b.
 Proof. exact no_secrets_api_succeeds_on_public. Qed.
 Print Assumptions C13_no_secrets_apis_succeed_on_public_keysets.
 
 Theorem C13_no_secrets_handle_holds_only_public_or_remote :
-  forall ec_point_ok ec_pub_of_priv ks h,
-    handle_no_secrets ec_point_ok ec_pub_of_priv ks = Ok h ->
+  forall (L : stdlib) ks h,
+    handle_no_secrets L ks = Ok h ->
     exists k, ks = Some k /\ Forall (fun x => public_or_remote (key_material x)) (ks_keys k).
 Proof. exact no_secrets_handle_is_public. Qed.
 Print Assumptions C13_no_secrets_handle_holds_only_public_or_remote.
@@ -65,25 +65,25 @@ Print Assumptions C13_write_no_secrets_iff.
    two accepted keysets equal on that projection give the same output whatever
    their key bytes. *)
 Theorem C13_keyset_info_noninterference :
-  forall ec_point_ok ec_pub_of_priv k1 k2 h1 h2,
-    handle_from_proto ec_point_ok ec_pub_of_priv (Some k1) = Ok h1 ->
-    handle_from_proto ec_point_ok ec_pub_of_priv (Some k2) = Ok h2 ->
+  forall (L : stdlib) k1 k2 h1 h2,
+    handle_from_proto L (Some k1) = Ok h1 ->
+    handle_from_proto L (Some k2) = Ok h2 ->
     metadata k1 = metadata k2 -> info_of_handle h1 = info_of_handle h2.
 Proof. exact info_noninterference. Qed.
 Print Assumptions C13_keyset_info_noninterference.
 
 Theorem C13_string_noninterference :
-  forall ec_point_ok ec_pub_of_priv (text_of_info : keyset_info -> bytes) k1 k2 h1 h2,
-    handle_from_proto ec_point_ok ec_pub_of_priv (Some k1) = Ok h1 ->
-    handle_from_proto ec_point_ok ec_pub_of_priv (Some k2) = Ok h2 ->
+  forall (L : stdlib) (text_of_info : keyset_info -> bytes) k1 k2 h1 h2,
+    handle_from_proto L (Some k1) = Ok h1 ->
+    handle_from_proto L (Some k2) = Ok h2 ->
     metadata k1 = metadata k2 -> text_of_info (info_of_handle h1) = text_of_info (info_of_handle h2).
 Proof. exact string_noninterference. Qed.
 Print Assumptions C13_string_noninterference.
 
 (* the KeysetInfo of a handle is computed from the keyset's metadata *)
 Theorem C13_keyset_info_is_function_of_metadata :
-  forall ec_point_ok ec_pub_of_priv ks h,
-    handle_from_proto ec_point_ok ec_pub_of_priv (Some ks) = Ok h ->
+  forall (L : stdlib) ks h,
+    handle_from_proto L (Some ks) = Ok h ->
     info_of_handle h = mkInfo (ks_primary ks) (map reported_key_info (i_keys (metadata ks))).
 Proof. exact handle_info_of_metadata. Qed.
 Print Assumptions C13_keyset_info_is_function_of_metadata.
@@ -105,16 +105,16 @@ Print Assumptions C13_binary_writer_reader_roundtrip.
    handle only if the key-encryption AEAD accepted the ciphertext under the
    given associated data; if it rejects, the reader errors. *)
 Theorem C13_encrypted_read_only_if_aead_accepts :
-  forall ec_point_ok ec_pub_of_priv (K : Type) (aead_dec : K -> bytes -> bytes -> option bytes) k b ad,
-    (forall h, read_encrypted ec_point_ok ec_pub_of_priv (aead_dec k) b ad = Ok h ->
+  forall (L : stdlib) (K : Type) (aead_dec : K -> bytes -> bytes -> option bytes) k b ad,
+    (forall h, read_encrypted L (aead_dec k) b ad = Ok h ->
        exists ct pt ks, decode_encrypted b = Some ct /\ aead_dec k ct ad = Some pt
          /\ decode_keyset pt = Some ks /\ accepted_as ks h)
     /\ (forall ct, decode_encrypted b = Some ct -> aead_dec k ct ad = None ->
-       read_encrypted ec_point_ok ec_pub_of_priv (aead_dec k) b ad = Err).
+       read_encrypted L (aead_dec k) b ad = Err).
 Proof.
-  intros p q K dec k b ad. split.
-  - intros h. exact (encrypted_read_needs_aead p q K dec k b ad h).
-  - intros ct. exact (aead_rejects_then_error p q K dec k b ad ct).
+  intros L K dec k b ad. split.
+  - intros h. exact (encrypted_read_needs_aead L K dec k b ad h).
+  - intros ct. exact (aead_rejects_then_error L K dec k b ad ct).
 Qed.
 Print Assumptions C13_encrypted_read_only_if_aead_accepts.
 
@@ -122,27 +122,27 @@ Print Assumptions C13_encrypted_read_only_if_aead_accepts.
    what Write produced is unreadable with another key or other associated
    data, and with the right ones the reader sees exactly the serialized keyset. *)
 Theorem C13_wrong_key_or_ad_rejected :
-  forall ec_point_ok ec_pub_of_priv (K : Type)
+  forall (L : stdlib) (K : Type)
          (aead_enc : K -> bytes -> bytes -> bytes -> bytes) (aead_dec : K -> bytes -> bytes -> option bytes),
     (forall k k' iv pt ad ad', (k' <> k \/ ad' <> ad) -> aead_dec k' (aead_enc k iv pt ad) ad' = None) ->
     forall k k' h iv ad ad' b,
       write_encrypted_binary (aead_enc k) h iv ad = Ok b ->
       blen (encrypted_ct (aead_enc k) h iv ad) < 18446744073709551616 ->
       (k' <> k \/ ad' <> ad) ->
-      read_encrypted ec_point_ok ec_pub_of_priv (aead_dec k') b ad' = Err.
+      read_encrypted L (aead_dec k') b ad' = Err.
 Proof. exact wrong_key_or_ad_rejected. Qed.
 Print Assumptions C13_wrong_key_or_ad_rejected.
 
 Theorem C13_right_key_reads_the_serialized_keyset :
-  forall ec_point_ok ec_pub_of_priv (K : Type)
+  forall (L : stdlib) (K : Type)
          (aead_enc : K -> bytes -> bytes -> bytes -> bytes) (aead_dec : K -> bytes -> bytes -> option bytes),
     (forall k iv pt ad, aead_dec k (aead_enc k iv pt ad) ad = Some pt) ->
     forall k h iv ad b,
       write_encrypted_binary (aead_enc k) h iv ad = Ok b ->
       blen (encrypted_ct (aead_enc k) h iv ad) < 18446744073709551616 ->
-      read_encrypted ec_point_ok ec_pub_of_priv (aead_dec k) b ad =
+      read_encrypted L (aead_dec k) b ad =
       match decode_keyset (ser_keyset (proto_of_handle h)) with
-      | Some ks => handle_from_proto ec_point_ok ec_pub_of_priv (Some ks)
+      | Some ks => handle_from_proto L (Some ks)
       | None => Err
       end.
 Proof. exact right_key_reads_serialized_keyset. Qed.
@@ -186,17 +186,18 @@ Definition ex13_keyset : bytes :=
   ++ [18; 80; 10; 72; 10; 48] ++ u_aes_gcm ++ [18; 18; 26; 16] ++ repeat 7 16%nat ++ [24; 1] ++ [16; 1; 24; 5; 32; 1].
 
 Example C13_nonvacuous :
-  let p := fun (_ : N) (_ : bytes) => false in
-  let q := fun (_ : N) (_ : bytes) => @None bytes in
+  (* a standard library that refuses everything (the example needs none of it) *)
+  let p := mkStd (fun _ _ => false) (fun _ _ => None) (fun _ => []) (fun _ _ => None) (fun _ _ => [])
+                 (fun _ _ _ _ _ => None) (fun _ _ _ _ _ _ _ _ => false) in
   exists h b,
-    read p q ex13_keyset = Ok h
-    /\ read_no_secrets p q ex13_keyset = Err
+    read p ex13_keyset = Ok h
+    /\ read_no_secrets p ex13_keyset = Err
     /\ write_no_secrets h = Err
     /\ info_of_handle h = mkInfo 9 [mkKI [120] 1 9 3; mkKI u_aes_gcm 1 5 1]
     /\ write_encrypted_binary (toy_enc 42) h [] [1; 2] = Ok b
-    /\ (exists h', read_encrypted p q (toy_dec 42) b [1; 2] = Ok h' /\ info_of_handle h' = info_of_handle h)
-    /\ read_encrypted p q (toy_dec 43) b [1; 2] = Err
-    /\ read_encrypted p q (toy_dec 42) b [1; 3] = Err.
+    /\ (exists h', read_encrypted p (toy_dec 42) b [1; 2] = Ok h' /\ info_of_handle h' = info_of_handle h)
+    /\ read_encrypted p (toy_dec 43) b [1; 2] = Err
+    /\ read_encrypted p (toy_dec 42) b [1; 3] = Err.
 Proof.
   cbv zeta. eexists. eexists.
   split; [vm_compute; reflexivity|].
